@@ -1,3 +1,4 @@
+import Mathlib.Tactic.Linarith
 import ElexModel.Core.Conformal
 import ElexModel.Lemmas.Num
 import ElexModel.Gen.C14
@@ -197,5 +198,27 @@ example : minUnits (7/10) = 6 ∧ confFrac 6 (7/10) = 3/50 ∧ trainRows 6 (3/50
 example : minUnits (1/2) = 3 ∧ trainRows 3 (confFrac 3 (1/2)) = 1 ∧ nCal 3 (confFrac 3 (1/2)) = 2 := by decide +kernel
 example : gateRaises [6, 19] 10 = true ∧ gateRaises [19, 6] 10 = true ∧ gateRaises [6, 19] 19 = false := by
   decide +kernel
+
+end ElexModel.Conformal
+
+namespace ElexModel.Conformal
+open ElexModel
+
+/-- **C14 on the source**: with the formulas as they are written in `/repo/src` today, any number of reporting units at or above
+    `get_minimum_reporting_units(α)` gives at least one training unit, at least one calibration unit and a quantile level below 1 —
+    for every `0 < α < 1`, every `n` -/
+theorem source_split_ok (alpha : ℚ) (h0 : 0 < alpha) (h1 : alpha < 1) (n : ℕ) (hn : Gen.C14.np_min_units alpha ≤ (n : ℚ)) :
+    1 ≤ Gen.C14.train_rows (n : ℚ) (Gen.C14.np_conf_frac (n : ℚ) alpha) ∧
+    1 ≤ (n : ℚ) - Gen.C14.train_rows (n : ℚ) (Gen.C14.np_conf_frac (n : ℚ) alpha) ∧
+    Gen.C14.correction_quantile alpha ((n : ℚ) - Gen.C14.train_rows (n : ℚ) (Gen.C14.np_conf_frac (n : ℚ) alpha)) < 1 := by
+  rw [bridge_min_units] at hn
+  have hn' : minUnits alpha ≤ (n : ℤ) := by exact_mod_cast hn
+  obtain ⟨a, b, c⟩ := split_ok alpha h0 h1 n hn'
+  rw [bridge_conf_frac, bridge_train_rows, bridge_quantile]
+  have hcal : ((nCal n (confFrac (n : ℚ) alpha) : ℤ) : ℚ) = (n : ℚ) - (trainRows n (confFrac (n : ℚ) alpha) : ℚ) := by
+    unfold nCal; push_cast; ring
+  refine ⟨by exact_mod_cast a, ?_, ?_⟩
+  · rw [← hcal]; exact_mod_cast b
+  · rw [← hcal]; exact c
 
 end ElexModel.Conformal
